@@ -148,6 +148,9 @@ def mk_node(cx, cls, name, **fields):
 def mk_link(cx, cls, name, start, end, **fields):
     base = dict(_link_name=name, _start_node=start, _end_node=end, _user_status=LinkStatus.Open,
                 _internal_status=LinkStatus.Active, _is_isolated=False, _flow=None, _setting=None)
+    # initial (t = 0) values are distinct symbols: a builder that reads them instead of the current ones fails its postcondition
+    base["_initial_setting"] = cx.real("initial_setting")
+    base["_initial_status"] = LinkStatus.Open
     base.update(fields)
     return cx.obj(cls, **base)
 
